@@ -96,6 +96,7 @@ type bres struct {
 	Exam     *exam   `json:"exam,omitempty"`
 	PIT      string  `json:"pit,omitempty"` // why the vector is not a single point of the commit order
 	Inconcl  string  `json:"inconclusive,omitempty"`
+	Storm    bool    `json:"storm,omitempty"`
 }
 
 type jobres struct {
@@ -235,7 +236,11 @@ func worker(args []string) {
 	var results []*bres
 	switch sp.Kind {
 	case "mix":
-		results = e.runMix()
+		results = e.runMix(2, 3000)
+	case "storm":
+		// many overlapping binary backups (each one snapshots first) under the
+		// fastest write load: aimed at the copy of the main file racing a checkpoint
+		results = e.runMix(5, 300)
 	case "cut":
 		results = e.runCut(&jr)
 	}
@@ -444,7 +449,7 @@ func (e *env) urlFor(bc bcase) string {
 
 // one executes a backup case without a cut.
 func (e *env) one(bc bcase, scratch string) *bres {
-	r := &bres{Case: bc, Job: e.sp.Job}
+	r := &bres{Case: bc, Job: e.sp.Job, Storm: e.sp.Kind == "storm"}
 	r.LB = e.snapVec(e.acked)
 	body := e.fetch(e.urlFor(bc), r)
 	r.UB = e.snapVec(e.started)
@@ -456,7 +461,7 @@ func (e *env) one(bc bcase, scratch string) *bres {
 	return r
 }
 
-func (e *env) runMix() []*bres {
+func (e *env) runMix(clients, paceMicros int) []*bres {
 	sp := e.sp
 	var stop atomic.Bool
 	var wg sync.WaitGroup
@@ -467,11 +472,10 @@ func (e *env) runMix() []*bres {
 		rw := rand.New(rand.NewPCG(uint64(sp.Seed), uint64(sp.Job*100+w)))
 		go func(w int) {
 			defer wg.Done()
-			e.writer(w, &stop, func() time.Duration { return time.Duration(rw.IntN(3000)) * time.Microsecond }, &errs, &mu)
+			e.writer(w, &stop, func() time.Duration { return time.Duration(rw.IntN(paceMicros)) * time.Microsecond }, &errs, &mu)
 		}(w)
 	}
-	// two backup clients, so that backups also overlap each other
-	const clients = 2
+	// several backup clients, so that backups also overlap each other
 	out := make([][]*bres, clients)
 	var bw sync.WaitGroup
 	for k := 0; k < clients; k++ {
